@@ -177,7 +177,7 @@ class C02(SingleRun):
             "engine commands; status clauses evaluated after every handler; non-trivial = the run visited >= 3 distinct workflow "
             "statuses and a control request landed while >= 1 action was in flight")
     faults = dict(poll_skip=0.05, poll_twice=0.05, restart=0.03, pause=0.04, resume_early=0.1, cancel=0.04,
-                  bad_request=0.03)
+                  bad_request=0.03, pending=0.05)
 
     def nontrivial(self, r):
         w = r["world"]
@@ -191,7 +191,7 @@ class C03(SingleRun):
             "quiescent point (nothing in flight, fresh get_next_tasks() empty); non-trivial = a quiescent point was reached with a "
             "status other than succeeded, or >= 2 quiescent points in one run")
     faults = dict(poll_skip=0.1, poll_twice=0.05, restart=0.03, pause=0.04, resume_early=0.05, cancel=0.015,
-                  bad_request=0.02, rerun=0.5)
+                  bad_request=0.02, rerun=0.5, pending=0.05)
 
     def nontrivial(self, r):
         rp = r["world"].resting_points
@@ -341,7 +341,7 @@ class C15(SingleRun):
             "pause/resume/cancel, inadmissible requests, rerun, action failures); any exception other than the documented rejections "
             "leaving instantiate/inspect/compose/any conductor call is a violation; non-trivial = >= 1 fault kind fired and >= 10 API calls")
     faults = dict(poll_skip=0.1, poll_twice=0.1, restart=0.05, dup=0.05, pause=0.03, resume_early=0.1, cancel=0.02,
-                  bad_request=0.05, rerun=0.4, suffix_requests=0.2)
+                  bad_request=0.05, rerun=0.4, suffix_requests=0.2, pending=0.04)
 
     def nontrivial(self, r):
         s = r["stats"]
